@@ -205,7 +205,8 @@ def mk_date(cid, d):
     if v is None:
         if len(_date_cache) > 200000:
             _date_cache.clear()
-        v = _date_cache[k] = P().LocalDate._ctor(days_since_epoch=d, calendar=cal_info(cid)[0])
+        import routes
+        v = _date_cache[k] = routes.routed_date(cal_info(cid)[0], d)
     return v
 
 
